@@ -140,12 +140,18 @@ def install(ctx, repo, probes):
             return None
         spec = t_spec(t)
         if R.canon(repo.CALENDAR.mode) != MODE or not in_scope(spec) or \
-                not R.tp_valid(MODE, p) or not R.tp_is_integral(p) or \
-                p._hour_of_day == 24:
+                not R.tp_valid(MODE, p) or p._hour_of_day == 24:
             return None
         tz = t._time_zone
         p_off = R.tp_offset_minutes(p)
         off = p_off if tz._unknown else tz._hours * 60 + tz._minutes
+        if not R.tp_is_integral(p):
+            # a whole-second instant written with decimal hours in quarter
+            # hours (exact in floats, also when re-zoned by quarter hours)
+            if not (R.tp_form(p) == "h" and R.tp_is_dyadic(p, 4) and
+                    (off - p_off) % 15 == 0 and p_off % 15 == 0):
+                return None
+            ctx.cls("p/decimal-hour-quarter")
         if ctx.t_zone is not None:
             # the workload knows which zone t was given ("" = none): the
             # oracle must not depend on the library's own unknown flag
@@ -413,6 +419,55 @@ def structured_cases(ctx):
                 yield {"op": "add", "order": "t+p" if k % 2 else "p+t",
                        "t": dict(kw, truncated=True), "p": pkw,
                        "t_zone": None}
+    # p written with decimal hours, already matching t when read in t's zone
+    # (minutes away from p's, across midnight): nothing has to be stepped
+    base = R.ymd_to_rd(MODE, 2000, 1, 1) * 86400
+    for p_off, t_off in (((0, 0), (0, 30)), ((5, 0), (5, 30)),
+                         ((0, 45), (0, 15)), ((0, 30), (0, 0)),
+                         ((-3, -30), (-3, 0)), ((1, 0), (0, 45))):
+        for q in (94, 95, 96, 97, 1, 2):       # quarter hours of the day
+            for rep in gen.REPS:
+                k += 1
+                if not ctx.mine(k):
+                    continue
+                pm, tm = p_off[0] * 60 + p_off[1], t_off[0] * 60 + t_off[1]
+                inst = base + q * 900 - pm * 60
+                prd, psod = divmod(inst + pm * 60, 86400)
+                pkw = gen.date_kwargs(MODE, rep, prd)
+                pkw.update({"hour_of_day": psod // 3600,
+                            "hour_of_day_decimal": psod % 3600 / 3600.0})
+                pkw.update(gen.zone_kwargs(p_off))
+                trd, tsod = divmod(inst + tm * 60, 86400)
+                shapes = [{"hour_of_day": tsod // 3600,
+                           "minute_of_hour": tsod % 3600 // 60},
+                          {"day_of_week": R.rd_to_week(MODE, trd)[2]},
+                          {"day_of_month": R.rd_to_ymd(MODE, trd)[2]}]
+                tkw = dict(shapes[k % 3], truncated=True,
+                           time_zone_hour=t_off[0], time_zone_minute=t_off[1])
+                yield {"op": "add", "order": "t+p" if k % 2 else "p+t",
+                       "t": tkw, "p": pkw, "t_zone": list(t_off)}
+    # the end of February in year 0 (a leap year whose number is falsy), 4
+    # and 1 (the first common year), every representation
+    for y in (0, 4, 1):
+        feb28 = R.ymd_to_rd(MODE, y, 2, 28)
+        for rd in (feb28 - 1, feb28, feb28 + 1, feb28 + 2):
+            for kw in ({"hour_of_day": 6}, {"day_of_month": 29},
+                       {"day_of_month": 1}, {"day_of_year": 60},
+                       {"day_of_year": 61}, {"minute_of_hour": 30},
+                       {"day_of_week": 1 + rd % 7, "hour_of_day": 6}):
+                for sod in (7 * 3600, 5 * 3600, 86399):
+                    k += 1
+                    if not ctx.mine(k):
+                        continue
+                    rep = gen.REPS[k % 3]
+                    pkw = gen.date_kwargs(MODE, rep, rd)
+                    pkw.update({"hour_of_day": sod // 3600,
+                                "minute_of_hour": sod % 3600 // 60,
+                                "second_of_minute": sod % 60})
+                    pkw.update(gen.zone_kwargs((0, 0)))
+                    yield {"op": "add", "order": "t+p" if k % 2 else "p+t",
+                           "t": dict(kw, truncated=True), "p": pkw,
+                           "t_zone": None}
     for y in (2019, 2020, 2100):
         y0 = R.days_before_year(MODE, y)
         for doy in range(R.year_len(MODE, y)):
@@ -478,6 +533,22 @@ def workload(ctx, repo):
             inst = rd * 86400 + rng.randrange(86400)
         pkw = gen.tp_from_instant(rng, MODE, inst, offset=off,
                                   allow_2400=False)
+        if k % 12 == 5 and "t" in tdesc:
+            # p written with decimal hours (a quarter-hour instant), in an
+            # offset a multiple of 15 minutes, t in a zone minutes away
+            qoff = rng.choice(((0, 0), (5, 30), (0, 45), (-3, -30), (1, 0)))
+            inst_q = inst - inst % 900
+            pkw = gen.tp_from_instant(rng, MODE, inst_q, offset=qoff,
+                                      allow_2400=False)
+            mins = pkw.pop("minute_of_hour")
+            pkw.pop("second_of_minute")
+            pkw["hour_of_day_decimal"] = mins / 60.0
+            if "t" in tdesc and "time_zone_hour" in tdesc["t"]:
+                t_off = rng.choice(((0, 30), (0, 0), (5, 45), (-3, -45)))
+                tdesc = dict(tdesc)
+                tdesc["t"] = dict(tdesc["t"], time_zone_hour=t_off[0],
+                                  time_zone_minute=t_off[1])
+                tdesc["t_zone"] = list(t_off)
         case = {"op": "add", "order": "t+p" if k % 3 else "p+t", "p": pkw}
         case.update(tdesc)
         ctx.case = case
